@@ -12,6 +12,10 @@ import c09_lib as L
 import c09_kill as K
 
 MAX_REPORT = 12
+# theorems of Properties_C09.v that are stated for every loader of the shape Content.LoaderModel.loader with regular, EOF-strict
+# record parsers (generic form).  Their instances for Codec.CodecModel.decode are NOT obtained by instantiation: they are proved
+# directly and unconditionally in Properties_C09_codec.v (C09_decode_sealed / _alteration_rejected / _truncation_rejected).
+CONDITIONAL = ['C09_accept_sealed', 'C09_truncation_rejected', 'C09_alteration_rejected', 'C09_single_bit_rejected']
 
 
 def materialise(d, conf, content):
@@ -89,7 +93,7 @@ def merge(dst, src):
         dst[k] = dst.get(k, 0) + v
 
 
-def damaged_sweeps(chk, tool, asan, work, tier, stats):
+def damaged_sweeps(chk, tool, asan, model_exe, work, tier, stats):
     quick = tier == 'quick'
     rng = chk.rng
     counter = [0]
@@ -152,6 +156,38 @@ def damaged_sweeps(chk, tool, asan, work, tier, stats):
             merge(classes, cl)
             report_bad(chk, counter, tag, spec, conf, base, bad, cmd, mode, san)
         distinct += len(ex) + len(by) + len(rnd)
+        # model <-> C on the loader: `snapraid -C` and the extracted CodecModel.decode (no configuration) on the valid file and on
+        # every mutant: accept/reject must agree (else MODEL-DRIFT); the reject kind (end of file / other) is compared and counted
+        allm = ex + by + rnd
+        bad, n, cl, per = sw.run(tool, base, allm, None, mode='noconf', want=True)
+        total_runs += n
+        shape_runs += n
+        merge(classes, cl)
+        report_bad(chk, counter, 'noconf', spec, conf, base, bad, None, 'noconf', False)
+        mo = run_lines(model_exe, ['decode ' + base.hex()] + ['decode ' + L.apply_mut(base, m).hex() for m in allm])
+        md = stats.setdefault('model_decode', dict(cases=0, agree_accept_reject=0, same_reject_kind=0, kind_mismatch={}, valid_files_loaded_by_model=0))
+        if mo[0] == 'ok':
+            md['valid_files_loaded_by_model'] += 1
+        elif counter[0] < MAX_REPORT:
+            counter[0] += 1
+            chk.violation('model_drift_valid_' + spec['name'], 'MODEL-DRIFT: CodecModel.decode (no configuration) answers %r on the valid content file of shape %s that '
+                          '`snapraid -C` loads; the rejection theorems are then about a stale model' % (mo[0], spec['name']),
+                          dict(shape=spec, content_hex=base.hex(), model=mo[0]), no_input=True)
+        for m, (rc, dc), o in zip(allm, per, mo[1:]):
+            md['cases'] += 1
+            creal = 'ok' if rc == 0 else ('eof' if (dc in ('eof-in-record', 'no-crc-record', 'eof-in-crc') or (dc == 'not-binary' and m == ('trunc', 0))) else 'bad')
+            if (creal == 'ok') == (o == 'ok'):
+                md['agree_accept_reject'] += 1
+                if creal == o:
+                    md['same_reject_kind'] += 1
+                else:
+                    key = '%s/model:%s' % (dc, o)
+                    md['kind_mismatch'][key] = md['kind_mismatch'].get(key, 0) + 1
+            elif creal != 'ok' and counter[0] < MAX_REPORT:
+                # the real code refuses, the model loads: the property holds on this input, the model is stale
+                counter[0] += 1
+                chk.violation('model_drift_' + spec['name'], 'MODEL-DRIFT: CodecModel.decode loads a damaged file (%s of shape %s) that `snapraid -C` refuses (%s)' % (
+                    L.describe(m), spec['name'], dc), dict(shape=spec, mutant=L.describe(m), content_hex=L.apply_mut(base, m).hex(), model=o, real=dc), no_input=True)
         d = L.snapshot_diff(snap0, L.snapshot_tree(root))
         if d:
             chk.violation('modified_' + spec['name'], 'commands refused for a damaged content file nevertheless modified the array %s: %s' % (spec['name'], '; '.join(d[:4])),
@@ -235,9 +271,13 @@ def kill_points(chk, tool, shim, model_exe, work, tier, stats):
         except L.ArrayError as e:
             chk.violation('kill_setup_%d' % nc, 'kill-point scenario with %d content copies could not be set up: %s' % (nc, str(e)[:300]), dict(error=str(e)))
             continue
+        nprot = nkill = 0
         for what, rep in probs:
-            if reported < 8:
+            iskill = isinstance(rep, dict) and 'kill_at' in rep
+            if reported < 10 and ((iskill and nkill < 3) or (not iskill and nprot < 3)):
                 reported += 1
+                nkill += iskill
+                nprot += not iskill
                 chk.violation('kill_%dcopies' % nc, what, rep)
         # model <-> C: the extracted SaveModel.save_ops must be the call sequence the binary performed, round by round
         for rnd in sc.rounds:
@@ -300,7 +340,7 @@ def main(tier, replay=None):
         return replay_file(replay, tool, asan, work)
 
     ob = check_obligations('C09')
-    proof_coverage(chk, ob, 'make -f Makefile.coq -k Props/Properties_C09.vo (coqc 8.16.1, full .vo) + Print Assumptions',
+    proof_coverage(chk, ob, 'make -f Makefile.coq -k Props/Properties_C09.vo Props/Properties_C09_codec.vo (coqc 8.16.1, full .vo) + Print Assumptions',
                    ['Coq 8.16.1 kernel incl. vm_compute (32x32 GF(2) matrix inverse certificate of the CRC burst theorem, Examples)',
                     'abstract file system of SaveModel.v: finite map path -> bytes; rename atomic; a completed call persists across process death; '
                     'a torn write leaves a prefix of the intended bytes, in the file being written only (section-free: these are the definitions of the model)',
@@ -320,7 +360,7 @@ def main(tier, replay=None):
     n_corpus = corpus_cases(chk, tool, asan, work, stats)
     stats['t_corpus'] = round(time.time() - t, 1)
     t = time.time()
-    n_dmg, distinct = damaged_sweeps(chk, tool, asan, work, tier, stats)
+    n_dmg, distinct = damaged_sweeps(chk, tool, asan, model_exe, work, tier, stats)
     stats['t_damage'] = round(time.time() - t, 1)
     t = time.time()
     n_kill, kills = kill_points(chk, tool, shim, model_exe, work, tier, stats)
@@ -338,10 +378,13 @@ def main(tier, replay=None):
     chk.cov['rule'] = ('a damaged-copy case counts when the bytes differ from the valid file and the real binary was run on them (all of them do: identity '
                        'mutants are dropped by construction); a kill case counts when the process really died by SIGKILL at the chosen call')
     chk.cov['input_distribution'] = stats
-    chk.cov['level_note'] = ('PROVED (Coq): save_atomic for any number of copies over the abstract file system; 32-bit burst detection of CRC-32C on byte strings; '
-                             'truncation/alteration rejection as stated in Props/Properties_C09.v (see there whether over Codec.CodecModel or over the abstract decoder '
-                             'interface).  TESTED ONLY: memory safety of the C loader (ASan+UBSan build on every truncation / single-bit / byte-substitution / random '
-                             'damage listed in input_distribution) and the correspondence of the real binary with the save model (system-call order + kill points).')
+    chk.cov['level_note'] = ('PROVED (Coq): save_atomic for any number of copies over the abstract file system (Properties_C09.v); 32-bit burst detection of '
+                             'CRC-32C on byte strings, windows over the crc bytes included; alteration AND truncation rejection for Codec.CodecModel.decode itself, unconditionally '
+                             '(Properties_C09_codec.v); `conditional_theorems` lists the generic skeleton versions, which are superseded by those.  '
+                             'TESTED ONLY: memory safety of the C loader (ASan+UBSan build on every truncation / single-bit / byte-substitution / random damage listed '
+                             'in input_distribution); the tie of the models to the C: system-call order + kill points for the save model, accept/reject class of '
+                             '`snapraid -C` against the extracted CodecModel.decode on every mutant for the loader model.')
+    chk.cov['conditional_theorems'] = CONDITIONAL
     chk.assumptions = ['rename(2) is atomic and a completed system call survives the death of the process (process kill, not power loss: fsync ordering on a real '
                        'disk is outside this check)',
                        'a torn write leaves a prefix of the intended bytes',
